@@ -628,8 +628,11 @@ class Scenario:
 
     # ------------------------------------------------------------------ exactness of one commit's note (C01 / C04)
     def parent_of(self, commit):
-        ps = self.w.ogit("rev-list", "--parents", "-n1", commit).split()[1:]
-        return ps[0] if ps else None
+        k = ("parent", commit)
+        if k not in self.nr._show:
+            ps = self.w.ogit("rev-list", "--parents", "-n1", commit).split()[1:]
+            self.nr._show[k] = ps[0] if ps else None
+        return self.nr._show[k]
 
     def diff_added(self, commit, parent=None):
         """{path: set(line numbers added)} by an own hunk-counting parser of `git diff -U0` under neutral config."""
